@@ -144,8 +144,8 @@ def check(ctx):
         ctx.add("R1", RW + "|paths", "UNDECIDED", "expected return paths for region given / not given", fn=RW)
     # R5 guards
     ps = ctx.paths(RW)
-    neither = any(p.exit == "raise" and lookup(p.decided, ("cmp", "is", ("param", "shape"), NONE)) is True and lookup(p.decided, ("cmp", "is", ("param", "spacing"), NONE)) is True and not p.calls(lambda t: callee(t) == GC) for p in ps)
-    ctx.check("R5", RW + "|rejects-neither", True if neither else False, "neither shape nor spacing raises before any work", bad="neither shape nor spacing no longer raises", fn=RW)
+    _both, neither = K.both_neither(ctx, RW, "shape", "spacing", extra_raise=lambda p: not p.calls(lambda t: callee(t) == GC))
+    ctx.check("R5", RW + "|rejects-neither", neither, "neither shape nor spacing raises before any work", bad="neither shape nor spacing no longer raises", fn=RW)
     over = [p for p in ps if p.exit == "raise" and p.conds and p.conds[-1][1] and p.conds[-1][0][0] == "cmp" and p.conds[-1][0][1] in ("<", ">")]
     ok = None
     for p in over:
